@@ -281,3 +281,69 @@ func c14MarkerScale(c *core.Check) {
 		r.Unknown("svg.(*SVGImage).drawMarkers | divisions by a marker scale", p.Pos(fn.Pos()), "none found")
 	}
 }
+
+// c14GradientBoxDivisors (R17): gradient.paint scales the gradient vector by the ratio of the sides of the box it
+// paints.  Every floating point division of that function whose divisor is the width or the height of the box is
+// dominated by a comparison of that value with zero (a shape without width or height cannot use bounding-box
+// units: the pattern matrix would hold +Inf and NaN).
+func c14GradientBoxDivisors(c *core.Check) {
+	p := c.Prog
+	r := c.Rule("R17", "finite pattern matrices: in svg.gradient.paint every division by the width or the height of the painted box is dominated by a comparison of that value with zero", 2)
+	fn := p.Method("svg", "gradient", "paint")
+	if fn == nil {
+		r.Anchor("svg.gradient.paint")
+		return
+	}
+	named := func(v ssa.Value) string {
+		switch x := v.(type) {
+		case *ssa.Phi:
+			return x.Comment
+		case *ssa.UnOp:
+			if al, ok := x.X.(*ssa.Alloc); ok {
+				return al.Comment
+			}
+			if fa, ok := x.X.(*ssa.FieldAddr); ok {
+				return core.FieldName(fa)
+			}
+		case *ssa.Field:
+			if st, ok := x.X.Type().Underlying().(*types.Struct); ok {
+				return st.Field(x.Field).Name()
+			}
+		}
+		return ""
+	}
+	n := 0
+	core.Instrs(fn, func(in ssa.Instruction) {
+		div, ok := in.(*ssa.BinOp)
+		if !ok || div.Op != token.QUO {
+			return
+		}
+		nm := strings.ToLower(named(div.Y))
+		if nm != "width" && nm != "height" {
+			return
+		}
+		n++
+		key := fmt.Sprintf("svg.gradient.paint | division by the box %s #%d", nm, n)
+		tested := false
+		vt := valueText(div.Y)
+		for _, a := range core.CondAtoms(fn) {
+			g, ok := a.(*ssa.BinOp)
+			if !ok {
+				continue
+			}
+			if z, ok := core.ConstFloat(g.Y); !ok || z != 0 {
+				continue
+			}
+			if g.X != div.Y && valueText(g.X) != vt {
+				continue
+			}
+			if g.Block() != div.Block() && g.Block().Dominates(div.Block()) {
+				tested = true
+			}
+		}
+		r.Cond(tested, key, p.Pos(div.Pos()), "compared with zero before", "the "+nm+" is not compared with zero before it divides: on a box without "+nm+" the pattern matrix holds +Inf and NaN")
+	})
+	if n == 0 {
+		r.Unknown("svg.gradient.paint | divisions by the box sides", p.Pos(fn.Pos()), "none found")
+	}
+}
